@@ -8,7 +8,10 @@ claim("C02", "TLC model checking of the exported table + trace validation of rea
       "The finite domain (all 530 tabulated settings) is enumerated completely in both tiers: MC_SpaceGroup checks the group axioms, flag, "
       "lookup uniqueness and the step-by-step reduce/expand round trip on the table exported from the current tree; every setting is "
       "also constructed as a real SpaceGroup and its reported operations, flag, LATT, reduced list and both lookups are validated by TLC "
-      "against Trace_SpaceGroup (plus seeded permutations of the operation-list order).",
+      "against Trace_SpaceGroup (plus seeded permutations of the operation-list order, the reduced description looked up sorted / without the identity / "
+      "reversed and twice from one list, and a group constructed after the caller edited another object's operations). The table is also held against "
+      "what its setting labels mean (Settings.tla, invariant TableSettings: origin choice 1/2, H/R, orthorhombic axis permutations, monoclinic unique axis, "
+      "axis cycle and cell choices, as relations between the rows of one number).",
       "Trusts TLC and the Symop decoding written in the spec; operation identity is by packed code as reported by the object (C11 checks that coding).")
 
 claim("C11", "TLC trace validation of codec/spelling/shift/apply events + exhaustive MC of the Symop module",
@@ -16,7 +19,10 @@ claim("C11", "TLC trace validation of codec/spelling/shift/apply events + exhaus
       "equality modulo the lattice and InverseOp is the inverse for every unimodular matrix over {-1,0,1}. Every operation code of the 530 settings "
       "plus seeded random codes is driven through from_integer_code -> (rotation, translation) -> integer_code -> str -> from_string_code and validated "
       "field by field by TLC; spellings from the spec's grammar (text certified by TLC) are parsed by the real reader; translations offset by integers "
-      "and rounding noise go through the constructor, +, -, inverted(); 3-vector/homogeneous/Cartesian application is compared with Symop!ApplyRaw. "
+      "and rounding noise go through the constructor, +, -, inverted() and the module-level encoders; free texts (repository CIF strings, freely composed "
+      "rows) are judged by the specification's own byte-level reader (SymopText.tla); every read is compared, hashed and printed against the same operation "
+      "built from the packed integer and the matrix; 3-vector/homogeneous/Cartesian application (also of operations built from integer matrices, of crystals "
+      "switched in place, and after the caller edited the matrix it was handed) is compared with Symop!ApplyRaw. "
       "The thorough tier enumerates the 34,012,224 packed codes as a prefix bounded by its time budget (evidence states the prefix).",
       "Trusts TLC, the grid projection (residual > 1e-9 is rejected as OnGrid) and the decode written in the spec. Spelling grammar = Symop!Spelling.")
 
@@ -26,7 +32,9 @@ claim("C01", "TLC model checking of the unit-cell algorithm against the orbit + 
       "orbit with each image once and occupancy conserved. For all 530 settings, real Crystal objects with 1-4 sites (general + exact special positions, "
       "partial occupancies, grids N=12/24/48, cells from a group-symmetrised integer Gram matrix, both cell construction routes) are built and their "
       "unit_cell_atoms()/slab() output, projected to the grid, is validated clause by clause by TLC (orbit equality, no duplicates, [0,1), generator "
-      "operation, parent index, element/label, merged occupancy, total occupancy, Gram products of cart_pos, slab rows/cells/counts).",
+      "operation, parent index, element/label, merged occupancy, total occupancy, Gram products of cart_pos, slab rows/cells/counts, and the same answer "
+      "when asked again after exports and other queries). Also: special positions given to 3-12 decimals, integer-typed coordinates, more than 256 sites, cells "
+      "re-specified in place, and crystals used in hexagonal axes and then switched in place (certified by Reexpress!SwitchedFromOK).",
       "Fractional coordinates are projected to the 1/N grid with residual <= 1e-6 (else rejected); sites are kept on the grid so no image is near the 0.01 merge "
       "tolerance; operation identity by packed code (C11). Cell shapes and site placements are sampled.")
 
